@@ -89,6 +89,15 @@ Definition secret_ok (g : graph) (seeds : list N) (s : N) : bool :=
 Definition secrets_ok (g : graph) (secrets seeds : list N) : bool :=
   wfb g && forallb (secret_ok g seeds) secrets.
 
+(* definition sites: [sites] lists, per secret, the alternative origins of its value (one node per
+   alternative, produced by the translator's S-rules).  Every secret must have at least one, each one
+   must flow into its secret, and each one is held to the same standard as the secret itself. *)
+Definition site_ok (g : graph) (seeds : list N) (secret site : N) : bool :=
+  secret_ok g seeds site && memN site (reach g secret).
+
+Definition sites_ok (g : graph) (seeds : list N) (sites : list (N * list N)) : bool :=
+  forallb (fun p => match snd p with [] => false | _ => forallb (site_ok g seeds (fst p)) (snd p) end) sites.
+
 (* ---- specification side (used by the theorems) ---- *)
 
 Definition edge (g : graph) (x y : N) : Prop :=
